@@ -147,6 +147,8 @@ class Writer:
         if isinstance(e, ast.IfExp):
             a, b = self.expr(e.body, env, mod), self.expr(e.orelse, env, mod)
             if a is not None and b is not None:
+                if all(len(x) == 1 and x[0][0] == 'RAW' for x in (a, b)):
+                    return None     # nothing says these are bytes: keep the conditional as a value expression
                 return Seq([('ALT', self.u(e.test, env, mod), a, b)]) if a != b else a
             return None
         if isinstance(e, ast.Call):
@@ -156,7 +158,17 @@ class Writer:
                 f = self.const(e.args[0], mod)
                 if not isinstance(f, str):
                     return Seq([('OPQ', 'dynamic format ' + U(e.args[0]))])
-                return Seq(fmt_items(f, [self.u(a, env, mod) for a in e.args[1:]]))
+                vals = []
+                for a in e.args[1:]:
+                    if isinstance(a, ast.Starred):
+                        tv = a.value
+                        if isinstance(tv, ast.Name) and isinstance(env.get(tv.id), (ast.Tuple, ast.List)):
+                            tv = env[tv.id]
+                        if isinstance(tv, (ast.Tuple, ast.List)):
+                            vals += list(tv.elts)
+                            continue
+                    vals.append(a)
+                return Seq(fmt_items(f, [self.u(a, env, mod) for a in vals]))
             if fn == 'int2byte' and len(e.args) == 1:
                 return Seq([('F', 'B', self.u(e.args[0], env, mod))])
             if fn == 'pack_bitstring' and len(e.args) == 1:
@@ -194,6 +206,18 @@ class Writer:
                 inner = self.expr(e.func.value, env, mod)
                 if inner is not None:
                     return Seq([('XF', 'upper', inner)])
+            inl = self.cx.pure_inline_call(e, mod, self.cls)
+            if inl is not None:
+                r = self.expr(inl, env, mod)
+                if r is not None:
+                    return r
+            if isinstance(e.func, ast.Name) and e.func.id.startswith('_'):
+                lk = self.cx.idx.lookup(mod, e.func.id)
+                if lk and lk[0] == 'func' and not e.keywords and len(e.args) == len(lk[1].params):
+                    sub = {}
+                    for p, a in zip(lk[1].params, e.args):
+                        sub[p] = ast.parse(self._subst_text(a, env), mode='eval').body
+                    return self.func(lk[1], sub)
             if isinstance(e.func, ast.Attribute) and isinstance(e.func.value, ast.Name) and e.func.value.id == 'self':
                 m = self.cx.idx.find_method(self.cls, e.func.attr)
                 if m is not None:
